@@ -317,4 +317,20 @@ PROPS = {
                 ">=2 calls were parked simultaneously and a pooled-size payload was present. TestPropStress: non-trivial = measured peak concurrency >= 4 and >= 1 injected fault.",
         "assumptions": ["response compression is unreachable in the pinned tree, so the gzip-writer pool is only exercised through gRPC per-message compression"],
     },
+    "C09": {
+        "pkg": "c09",
+        "stages": [{"run": "^TestProp$", "quick": (8000, 4), "thorough": (200000, 16), "timeout": {"quick": 900, "thorough": 7200}}],
+        "fuzz": {"target": "FuzzServe", "seconds": 300},
+        "technique": "property-based testing / fuzzing (rapid structured generator, also driven by Go's native coverage-guided fuzzer through rapid.MakeFuzz in the thorough tier) with recover(), status-range and read/message-count oracles",
+        "level_text": "Generated requests on the four entry paths (transcoding, gRPC, gRPC-web(-text), WebSocket upgrade through a hijackable writer over a pipe) against a fixed rich rule set "
+                      "(multi-segment ** variables with verbs, typed and nested variables, body fields, response_body, websocket kinds with and without body, all streaming shapes, HttpBody, "
+                      "healthz) under 8 mux configurations (interceptors, stats handler, small limits): hostile paths, dotted query walks through repeated/map/oneof/message fields, header sets, "
+                      "bodies with mutated frame lengths, fragmented and failing readers, handlers returning out-of-range codes and reserved metadata. Oracle: no panic, a status in 100..599 (or a "
+                      "hijack), a bounded number of Read calls and received messages. Exploration only.",
+        "level_note": "A 20 s watchdog converts a genuine hang into exit 2 with the input printed; it is never itself a verdict. Harness handlers never panic themselves.",
+        "rule": "structured generator (see genCase): entry x method x path (hostile constants, raw bytes, instantiated templates with mutations) x query (hostile dotted walks) x 0-4 headers from a "
+                "hostile pool x body (constants, raw bytes, gRPC/WebSocket frames with mutated lengths and flags, bad base64, gzip) x read partition x handler script. Non-trivial = the request got "
+                "past entry dispatch into the matcher, a stream/frame parser or a handler; distinct = (entry, stage, status class, handler script, config, path, query, headers).",
+        "assumptions": [],
+    },
 }
